@@ -628,19 +628,21 @@ def run(ctx):
            'run.single only forwards the stream to read_molecule_file', run_mod, single)
     imod = prog.mod('input')
     rmf = imod.func('read_molecule_file')
+    rparams = [a.arg for a in rmf.args.args]
+    p_file, p_cont, p_stream = rparams[0], rparams[1], rparams[2]
     path_vars = {norm(s_.targets[0]) for s_ in walk_no_nested(rmf) if isinstance(s_, ast.Assign)
-                 and norm(s_.value) == 'Path(filename)'}
-    name_ok = any(isinstance(s_, ast.Assign) and norm(s_.targets[0]) == 'mol_container.name'
+                 and norm(s_.value) == 'Path(%s)' % p_file}
+    name_ok = any(isinstance(s_, ast.Assign) and norm(s_.targets[0]) == p_cont + '.name'
                   and isinstance(s_.value, ast.Attribute) and s_.value.attr == 'stem'
                   and norm(s_.value.value) in path_vars for s_ in walk_no_nested(rmf))
     pick_ok = any(isinstance(s_, ast.Assign) and isinstance(s_.value, ast.IfExp)
-                  and norm(s_.value) == 'filename if stream is None else stream'
+                  and norm(s_.value) == '%s if %s is None else %s' % (p_file, p_stream, p_stream)
                   for s_ in walk_no_nested(rmf))
     ext_ok = any(isinstance(s_, ast.Assign) and isinstance(s_.value, ast.Attribute)
                  and s_.value.attr == 'suffix' and norm(s_.value.value) in path_vars
                  for s_ in walk_no_nested(rmf))
     ok = name_ok and pick_ok and ext_ok
-    s_uses = [n for n in walk_no_nested(rmf) if isinstance(n, ast.Name) and n.id == 'stream'
+    s_uses = [n for n in walk_no_nested(rmf) if isinstance(n, ast.Name) and n.id == p_stream
               and isinstance(n.ctx, ast.Load)]
     ctx.ob('C03.R4', 'stream-or-path:same-naming', ok and len(s_uses) == 2,
            'the molecule name and the file type derive from the file name in both cases; the '
